@@ -14,7 +14,13 @@ import os
 
 SRC_BASE, DST_BASE = 1 << 20, 1 << 24
 BYVALUE = os.environ.get("C05_BYVALUE", "") == "1"
-ELT = {8: "i8", 16: "i16", 32: "i32", 64: "i64"}
+# the harness's own width table: bytes per element = ceil(bits / 8); the type under test is never asked for `.size`
+WIDTHS = [1, 4, 7, 8, 8, 12, 16, 16, 20, 24, 32, 32, 32, 33, 64, 64]
+ELT = {b: f"i{b}" for b in WIDTHS}
+
+
+def el_bytes(bits):
+    return (bits + 7) // 8
 
 
 # ------------------------------------------------------------------------------------------------------
@@ -331,7 +337,7 @@ def gen_case(rng, tier, odd=False):
     if rng.random() < 0.35:
         dyn_dims = {d for d in range(rank) if rng.random() < 0.6}
     shape = [None if d in dyn_dims else rt_shape[d] for d in range(rank)]
-    bits = rng.choice([8, 16, 32, 64])
+    bits = rng.choice(WIDTHS)
     tbs = [tile_dim(rng, rt_shape[d], d in dyn_dims) for d in range(rank)]
     if odd and dyn_dims:
         # run-time extent that is not a multiple of the inner tile (D32)
@@ -349,7 +355,7 @@ def gen_case(rng, tier, odd=False):
             rt["strides"], rt["offset"] = rts, ro
         else:
             lay = gen_tsl(rng, tbs, shape, dyn_dims)
-        return {"shape": shape, "elt": ELT[bits], "el": bits // 8, "int": True, "layout": lay}, rt
+        return {"shape": shape, "elt": ELT[bits], "el": el_bytes(bits), "int": True, "layout": lay}, rt
 
     src, rs = side(SRC_BASE)
     dst, rd = side(DST_BASE)
@@ -363,8 +369,8 @@ def gen_case(rng, tier, odd=False):
 def gen_special(rng):
     """hand-shaped families: upstream filecheck inputs, equal steps with unit bounds, single-element LCB."""
     fam = rng.randrange(10)
-    bits = rng.choice([8, 32, 64])
-    el = bits // 8
+    bits = rng.choice(WIDTHS)
+    el = el_bytes(bits)
 
     def ty(shape, lay):
         return {"shape": shape, "elt": ELT[bits], "el": el, "int": True, "layout": lay}
@@ -521,7 +527,7 @@ class C05(Prop):
         "test_ignore_transform=true (documented as producing wrong data) is not modelled",
     ]
     rule = ("random layout pairs {default, strided(+gaps, offset, dynamic strides/offset), TSL depth<=3} x rank<=3(4), "
-            "static and dynamic extents, widths 8..64, plus hand-shaped families (upstream inputs, unit bounds with equal "
+            "static and dynamic extents, widths i1..i64 incl. sub-byte and odd ones (bytes = ceil(bits/8) from the harness table), plus hand-shaped families (upstream inputs, unit bounds with equal "
             "steps, single-element LCB, dynamic block layouts); non-trivial = more than one DMA burst is issued")
 
     # -- generators
